@@ -20,6 +20,10 @@ CHECKS = {
    "Every vector length 1..4096 x operand offsets x 8 value families on 7 implementations (asm kernels, dispatched functions, pure-Go fallbacks via hook) against a float64 reference with a rounding bound, NaN canaries around the operands, bit-exact symmetry; bit metrics for every length through the real binary vector store incl. all pairs for length<=6; haversine over all pairs of a 37x73 lattice.",
    "float values outside the eight families are not enumerated; AVX2/FMA CPU",
    "bounded-exhaustive input enumeration (all lengths) against reference definitions", "DESIGN.md §4 C20"),
+ "C01": (True, "seqx", "model_checking",
+   "Explicit-state breadth-first search over histories of insert/update/delete batches (18-symbol alphabet, depth 5 without indexes, depth 4 with the full seven-index schema, warm and reopened-after-every-batch instances, two start states) executed on the real shard; after every batch the returned error/ids, reported count, read of every id, select-all and the raw point-store/counter buckets are compared with a plain-map reference model. Complete within the alphabet and depth.",
+   "documents outside the alphabet; the order in which freed node ids are reused (Go map iteration) is not enumerated; states reached through a failed multi-point batch on an indexed schema are checked but not expanded (known finding F4 makes their futures schedule-dependent)",
+   "explicit-state BFS over operation histories of the real code vs reference model", "DESIGN.md §4 C01"),
 }
 
 props = [json.loads(l) for l in open(os.path.join(HERE, "properties.jsonl"))]
